@@ -16,7 +16,10 @@ import (
 	"strings"
 
 	dtpb "github.com/google/fhir/go/proto/google/fhir/proto/r4/core/datatypes_go_proto"
+	bcrpb "github.com/google/fhir/go/proto/google/fhir/proto/r4/core/resources/bundle_and_contained_resource_go_proto"
+	ppb "github.com/google/fhir/go/proto/google/fhir/proto/r4/core/resources/patient_go_proto"
 	"github.com/shopspring/decimal"
+	"google.golang.org/protobuf/types/known/anypb"
 	"github.com/verily-src/fhirpath-go/fhirpath"
 	"github.com/verily-src/fhirpath-go/fhirpath/evalopts"
 	"github.com/verily-src/fhirpath-go/fhirpath/internal/funcs"
@@ -33,7 +36,7 @@ var c01Lits = []string{"0", "1", "-1", "2147483647", "-2147483648", "2147483648"
 	"1 'mg'", "0 days", "5 years", "1.5 'kg'", "-3 months", "%v", "%e", "%m", "%missing", "$this", "Patient", "Patient.name", "Patient.name.given", "Patient.birthDate", "Patient.active", "Patient.name.first()", "(1 | 2)", "Patient.nosuch"}
 
 func runC01(c *Ctx) {
-	c.meta.Rule = "(a) generated programs (ProgGen, depth 1..4) over generated resources of every R4 type (quick: 40 types x 6 programs, thorough: all x 25); (b) every function of the table x arities 0..3 x argument texts from a 48-entry boundary pool x 6 input expressions; (c) 22 binary operators, polarity, is/as, indexer x boundary operands; (d) byte-mutated sources; (e) EvaluateAsBool/String/Int32 on a sample; (f) patch add/insert/delete/replace/move x paths x {right, wrong, nil} values x nil resource; non-trivial = call returned a value; distinct by source text"
+	c.meta.Rule = "(a) generated programs (ProgGen, depth 1..4) over generated resources of every R4 type (quick: 40 types x 6 programs, thorough: all x 25); (b) every function of the table x arities 0..3 x argument texts from a 48-entry boundary pool x 6 input expressions; (c) 22 binary operators, polarity, is/as, indexer x boundary operands; (d) byte-mutated sources; (e) EvaluateAsBool/String/Int32 on a sample; (c') 22 operators x the full square of 21 numeric/quantity operands; (f) patch add/insert/delete/replace/move x paths x {right, wrong, nil} values x nil resource; (g) evaluation and patch over messages whose choice / contained-resource wrappers and primitives are empty; non-trivial = call returned a value; distinct by source text"
 	input := []fhir.Resource{mustResource(`{"resourceType":"Patient","id":"p","active":true,"birthDate":"1980-02-29","name":[{"family":"Smith","given":["a","b"]},{"given":["c"]}],"extension":[{"url":"u","valueQuantity":{"unit":"mg"}}]}`)}
 	env := []fhirpath.EvaluateOption{
 		envVar("v", system.Collection{system.Integer(3), system.String("s")}),
@@ -142,6 +145,15 @@ func runC01(c *Ctx) {
 			run("op", Pick(c.rng, c01Lits)+" "+op+" "+Pick(c.rng, c01Lits), input)
 		}
 	}
+	// every operator over the full square of numeric and quantity operands
+	numeric := append(append([]string{}, c01Lits[:12]...), "1 'mg'", "0 days", "5 years", "1.5 'kg'", "-3 months", "0 'mg'", "0.0 'mg'", "(2.5 - 2.5)", "(1 - 1)")
+	for _, op := range ops {
+		for _, a := range numeric {
+			for _, b := range numeric {
+				run("op", a+" "+op+" "+b, input)
+			}
+		}
+	}
 	for k := 0; k < perOp*2; k++ {
 		a := Pick(c.rng, c01Lits)
 		run("op", Pick(c.rng, []string{"-" + a, "+" + a, a + " is " + Pick(c.rng, []string{"Integer", "System.String", "FHIR.Patient", "Quantity", "Foo", "string"}), a + " as " + Pick(c.rng, []string{"Integer", "HumanName", "Foo"}),
@@ -217,6 +229,58 @@ func runC01(c *Ctx) {
 				})
 				c.Observe(fmt.Sprintf("patch %s %s %T", op, p, v), false)
 				c.Law(!pan, "C01/patch-panic", "every FHIRPatch call returns nil or an error", fmt.Sprintf("%s %s value=%T", op, p, v), msg)
+			}
+		}
+	}
+	// structurally unusual but valid messages: choice and contained-resource wrappers with nothing set
+	odd := map[string]func() fhir.Resource{
+		"Patient(empty deceased[x])": func() fhir.Resource {
+			return &ppb.Patient{Name: []*dtpb.HumanName{{Given: []*dtpb.String{fhir.String("B")}}}, Deceased: &ppb.Patient_DeceasedX{}, MultipleBirth: &ppb.Patient_MultipleBirthX{},
+				Address: []*dtpb.Address{{City: fhir.String("S")}}, MaritalStatus: &dtpb.CodeableConcept{Text: fhir.String("m")}, Extension: []*dtpb.Extension{{Url: fhir.URI("u"), Value: &dtpb.Extension_ValueX{}}}}
+		},
+		"Bundle(empty contained resource)": func() fhir.Resource {
+			return &bcrpb.Bundle{Entry: []*bcrpb.Bundle_Entry{{Resource: &bcrpb.ContainedResource{}, Request: &bcrpb.Bundle_Entry_Request{Url: fhir.URI("Patient/1")}}, {}}}
+		},
+		"Patient(empty messages)": func() fhir.Resource {
+			return &ppb.Patient{Name: []*dtpb.HumanName{{}, {Given: []*dtpb.String{{}}}}, Active: &dtpb.Boolean{}, BirthDate: &dtpb.Date{}, Contained: []*anypb.Any{{}}, Id: &dtpb.Id{}}
+		},
+	}
+	oddPaths := map[string][]string{
+		"Patient(empty deceased[x])":       {"Patient.address[0]", "Patient.maritalStatus", "Patient.address", "Patient.deceased", "Patient.multipleBirth", "Patient.extension[0].value", "Patient.extension[0]", "Patient.name[0].given[0]", "Patient"},
+		"Bundle(empty contained resource)": {"Bundle.entry[0].request", "Bundle.entry[0].resource", "Bundle.entry[1]", "Bundle.entry", "Bundle.entry[0]", "Bundle"},
+		"Patient(empty messages)":          {"Patient.name[0]", "Patient.name[1].given[0]", "Patient.active", "Patient.birthDate", "Patient.contained[0]", "Patient.id", "Patient.name"},
+	}
+	var oddNames []string
+	for n := range odd {
+		oddNames = append(oddNames, n)
+	}
+	sort.Strings(oddNames)
+	for _, n := range oddNames {
+		for _, p := range oddPaths[n] {
+			run("odd", p, []fhir.Resource{odd[n]()})
+			run("odd", p+".descendants().count()", []fhir.Resource{odd[n]()})
+			run("odd", p+".children().exists() or "+p+".toString().exists()", []fhir.Resource{odd[n]()})
+			for _, v := range values {
+				for _, op := range []string{"add", "insert", "delete", "replace", "move"} {
+					res := odd[n]()
+					_, pan, msg := safeErr(func() error {
+						switch op {
+						case "add":
+							_ = patch.Add(res, p, Pick(c.rng, []string{"given", "name", "active", "value", "deceased", "resource", "request", "city", "text"}), v, &patch.Options{})
+						case "insert":
+							_ = patch.Insert(res, p, v, c.rng.Intn(3)-1)
+						case "delete":
+							_ = patch.Delete(res, p)
+						case "replace":
+							_ = patch.Replace(res, p, v)
+						case "move":
+							_ = patch.Move(res, p, 0, 1)
+						}
+						return nil
+					})
+					c.Observe(fmt.Sprintf("patch %s %s %s %T", op, n, p, v), false)
+					c.Law(!pan, "C01/patch-panic", "every FHIRPatch call returns nil or an error", fmt.Sprintf("%s on %s at %s value=%T", op, n, p, v), msg)
+				}
 			}
 		}
 	}
